@@ -2,7 +2,8 @@
 
 R1 guarded-insert => guarded-access   R2 paired insert/delete coherence of the dict pairs
 R3 interface selection completeness    R4 re-keying / stored values (replace, add_interface)
-R5 sort key of the listing methods      R6 identity validation precedes the first mutation
+R5 sort key of the listing methods      R6 every rejecting raise precedes the first mutation
+R7 add_subdomains: argument list checked for duplicates before the per-grid loops
 """
 from __future__ import annotations
 
@@ -48,8 +49,11 @@ META = {
         "tuple position of the replaced subdomain, transfers the stored data and builds the new boundary grid from the "
         "new subdomain; add_interface stores the pair returned by sort_subdomain_tuple. R5: the three listing methods "
         "return exactly the keys of their dict through argsort_grids/sort_* with data in lock-step; argsort_grids "
-        "orders by descending dimension down to 0 and, within a dimension, by np.argsort of the grids' .id. R6: raises "
-        "that validate identity/arity (membership in a dict, len) are not reachable from a mutation. Decides these "
+        "orders by descending dimension down to 0 and, within a dimension, gathers the positions by the ascending np.argsort "
+        "of the grids' .id (a scatter through that argsort, i.e. the inverse permutation, is a finding). R6: no raise of a "
+        "mutator is reachable from a mutation of the five dictionaries (a rejected call leaves no trace). R7: the per-grid "
+        "loops of add_subdomains are dominated by a uniqueness test of the argument list (len(set(..)) vs len, `is` double "
+        "loop, or de-duplication), else a grid listed twice gets two boundary grids. Decides these "
         "structural clauses; does not decide the container's state for concrete histories, nor failures inside "
         "MortarGrid.update_* during a replacement."),
     "rule_text": "one obligation per (dict access | mutation event x pair | selection loop clause | re-key arm | "
@@ -61,7 +65,7 @@ META = {
                     "methods interfaces()/subdomains()/boundaries()/subdomain_to_interfaces() return present keys (checked by R3/R5)"],
     "technique": "dict typestate over a statement CFG (dominance/post-dominance, reaching definitions) + shape rules for the sort key",
 }
-MIN_INSTANCES = {"R1": 8, "R2": 18, "R3": 6, "R4": 8, "R5": 22, "R6": 3}
+MIN_INSTANCES = {"R1": 8, "R2": 18, "R3": 6, "R4": 8, "R5": 22, "R6": 5, "R7": 2}
 
 
 # ---------------------------------------------------------------------------------------
@@ -1176,31 +1180,111 @@ def _r5_argsort(ctx: Ctx, mod, fi: FnInfo) -> None:
 # ---------------------------------------------------------------------------------------
 
 def _r6(ctx: Ctx, mod, infos: dict[str, FnInfo], mutators: set[str]) -> None:
+    """Every conditional `raise` of a mutator rejects the call: it must not be reachable from a mutation of the
+    five dictionaries (a rejected call leaves no trace)."""
     for name in sorted(mutators):
         fi = infos[name]
         muts = fi.mutations()
         for r in [s for s in stmts_local(fi.fn) if isinstance(s, ast.Raise)]:
+            if any(isinstance(p, ast.ExceptHandler) for p, _ in fi.enclosing(r, (ast.ExceptHandler,))) and r.exc is None:
+                continue  # bare re-raise inside a handler: not a validation
             guard = None
             for par, child in fi.enclosing(r, (ast.If,)):
                 guard = par
                 break
-            if guard is None:
-                continue
-            t = guard.test
-            identity = any(_self_dict(n) for n in ast.walk(t)) or any(
-                isinstance(n, ast.Call) and call_name(n) == "len" for n in ast.walk(t))
+            t = u(guard.test) if guard is not None else "<unconditional>"
             rn = fi.node(r)
             before = [m for m in muts if fi.cfg.reachable(fi.node(m.stmt), rn)]
-            if identity:
-                ctx.check("R6", not before, mod, f"{CLS}.{name}", r,
-                          "a raise that validates identity/arity of the arguments is reachable after the container was "
-                          "already modified: the failed call leaves a half-updated md-grid",
-                          construct=f"raise under `{u(t)}`",
-                          facts={"mutations_before": [f"{m.op} {m.d}[{u(m.key)}]" for m in before]})
-            elif before:
-                ctx.note(f"R6 (reported, not armed): {CLS}.{name}: raise under `{u(t)}` is reachable after "
-                         + ", ".join(f"{m.op} self.{m.d}[{u(m.key)}]" for m in before)
-                         + " - a rejected call leaves the dictionaries out of step")
+            ctx.check("R6", not before, mod, f"{CLS}.{name}", r,
+                      "a raise that rejects the call is reachable after the container was already modified ("
+                      + ", ".join(f"{m.op} self.{m.d}[{u(m.key)}]" for m in before)
+                      + "): the failed call leaves the dictionaries out of step",
+                      construct=f"raise under `{t}`",
+                      facts={"mutations_before": [f"{m.op} {m.d}[{u(m.key)}]" for m in before]})
+
+
+# ---------------------------------------------------------------------------------------
+# R7 uniqueness of the argument list of add_subdomains
+# ---------------------------------------------------------------------------------------
+
+UNIQ_HINTS = ("set", "frozenset", "fromkeys", "unique", "Counter", "count")
+
+
+def _uniqueness_tests(fi: FnInfo, X: str) -> tuple[list[ast.stmt], bool]:
+    """(statements that establish that list `X` has no repeated element, whether some other construct merely
+    *looks* like an attempt).  Recognised forms:
+      * `if <len(set(.. X ..)) cmp len(X)>: raise`            (set of ids / of the grids themselves)
+      * `if any(<a is b / a == b> for a in X for b in X ...): raise`   (double loop over the list itself)
+      * `X = list(dict.fromkeys(X))` / `X = list(set(X))`      (de-duplication; every later loop sees unique items)"""
+    found: list[ast.stmt] = []
+    hint = False
+    for s in stmts_local(fi.fn):
+        if isinstance(s, ast.If) and any(isinstance(n, ast.Raise) for b in s.body for n in ast.walk(b)):
+            for c in [n for n in ast.walk(s.test) if isinstance(n, ast.Compare) and len(n.ops) == 1]:
+                sides = [c.left, c.comparators[0]]
+                is_len = [isinstance(x, ast.Call) and call_name(x) == "len" and len(x.args) == 1 for x in sides]
+                if all(is_len) and not isinstance(c.ops[0], (ast.Eq, ast.Is)):
+                    args = [x.args[0] for x in sides]
+                    sets = [a for a in args if isinstance(a, ast.Call) and call_name(a) in ("set", "frozenset")
+                            and X in names_in(a)]
+                    plain = [a for a in args if isinstance(a, ast.Name) and a.id == X]
+                    if len(sets) == 1 and len(plain) == 1:
+                        found.append(s)
+            for comp in [n for n in ast.walk(s.test) if isinstance(n, (ast.ListComp, ast.GeneratorExp))]:
+                gens = [g for g in comp.generators if X in names_in(g.iter)]
+                if len(gens) >= 2 and any(isinstance(n, ast.Compare) and isinstance(n.ops[0], (ast.Is, ast.Eq))
+                                          for n in ast.walk(comp.elt)):
+                    found.append(s)
+        if isinstance(s, ast.Assign) and any(isinstance(t, ast.Name) and t.id == X for t in s.targets):
+            v = s.value
+            inner = v.args[0] if isinstance(v, ast.Call) and call_name(v) in ("list", "tuple") and len(v.args) == 1 else v
+            if isinstance(inner, ast.Call) and call_name(inner) in ("fromkeys", "set") and inner.args \
+                    and X in names_in(inner.args[0]):
+                found.append(s)
+    if not found:
+        for n in walk_local(fi.fn):
+            if isinstance(n, ast.Call) and call_name(n) in UNIQ_HINTS and X in names_in(n):
+                hint = True
+    return found, hint
+
+
+def _r7(ctx: Ctx, mod, infos: dict[str, FnInfo]) -> None:
+    fi = infos.get("add_subdomains")
+    if fi is None:
+        raise AnchorError(f"{MD}:{CLS}.add_subdomains missing")
+    q = f"{CLS}.add_subdomains"
+    loops: list[ast.For] = []
+    for e in fi.mutations():
+        if e.op == "store" and e.d in (SD, SD_BG, BG_DATA):
+            kl = fi.key_loop(e)
+            if kl is None and e.d == BG_DATA and isinstance(e.key, ast.Name):
+                # the boundary grid is created inside the loop that binds the subdomain
+                partner = [x for x in fi.mutations() if x.d == SD_BG and x.op == "store" and isinstance(x.value, ast.Name)
+                           and x.value.id == e.key.id]
+                kl = fi.key_loop(partner[0]) if partner else None
+            if kl is None:
+                raise Undecided(f"{MD}:{q}: insert self.{e.d}[{u(e.key)}] is not inside a loop over the argument list")
+            if not any(kl is x for x in loops):
+                loops.append(kl)
+    if not loops:
+        raise AnchorError(f"{MD}:{q}: no per-grid loop found")
+    for lp in loops:
+        if not isinstance(lp.iter, ast.Name):
+            raise Undecided(f"{MD}:{q}: per-grid loop iterates `{u(lp.iter)}`")
+        X = lp.iter.id
+        tests, hint = _uniqueness_tests(fi, X)
+        good = [t for t in tests if fi.dominates(fi.node(t), fi.node(lp)) and _names_stable(fi, lp.iter, t, lp)]
+        if not tests and hint:
+            raise Undecided(f"{MD}:{q}: a uniqueness-like construct on `{X}` exists but is not one of the enumerated forms")
+        what = sorted({e.d for e in fi.mutations() if e.op == "store" and any(p is lp for p, _ in fi.enclosing(e.node, (ast.For,)))})
+        ctx.check("R7", bool(good), mod, q, lp,
+                  f"the loop over `{X}` inserting into {what} is not dominated by a test that `{X}` lists every grid once: "
+                  f"add_subdomains([A, A]) stores A once but creates two boundary grids, one of them an orphan in "
+                  f"{BG_DATA} (listed by boundaries())",
+                  construct=f"for {u(lp.target)} in {X}: inserts into {', '.join(what)}",
+                  facts={"uniqueness_tests": [u(t.test) if isinstance(t, ast.If) else u(t) for t in good]})
+        ctx.sample({"rule": "R7", "loop": f"for {u(lp.target)} in {X}", "inserts": what,
+                    "uniqueness": [u(t.test) if isinstance(t, ast.If) else u(t) for t in good]})
 
 
 # ---------------------------------------------------------------------------------------
@@ -1227,19 +1311,6 @@ def _observations(ctx: Ctx, infos: dict[str, FnInfo], mutators: set[str]) -> Non
                          f"subdomains (and asserts an empty argument when none remain), so when `{u(hit[0].key)}` was the only "
                          f"grid of the highest dimension an interface of that dimension (e.g. a self-interface of "
                          f"`{u(hit[0].key)}`) is not listed and is left behind in {IF_DATA}/{IF_SD}")
-    # (b) duplicates inside the argument of add_subdomains
-    fi = infos.get("add_subdomains")
-    if fi is not None:
-        param = [a.arg for a in fi.fn.args.args if a.arg != "self"]
-        uniq = any(isinstance(n, ast.Call) and call_name(n) in ("set", "unique", "Counter") for n in walk_local(fi.fn))
-        bg_ins = [e for e in fi.mutations() if e.d == BG_DATA and e.op == "store" and fi.key_loop(
-            next(x for x in fi.mutations() if x.d == SD_BG and x.op == "store")) is not None] if any(
-            x.d == SD_BG and x.op == "store" for x in fi.mutations()) else []
-        if param and bg_ins and not uniq:
-            ctx.note(f"observation (reported, not armed): {CLS}.add_subdomains: the duplicate test compares `{param[0]}` with "
-                     f"the stored subdomains only, not with itself; add_subdomains([A, A]) runs the boundary-grid loop twice "
-                     f"for A: two BoundaryGrid objects enter {BG_DATA}, only the second is reachable through {SD_BG}[A] "
-                     f"(an orphan boundary grid is listed by boundaries())")
 
 
 def run(ctx: Ctx) -> None:
@@ -1275,6 +1346,7 @@ def run(ctx: Ctx) -> None:
         raise AnchorError(f"{MD}:{CLS}.argsort_grids missing")
     _r5_argsort(ctx, mod, infos["argsort_grids"])
     _r6(ctx, mod, infos, mutators)
+    _r7(ctx, mod, infos)
     _observations(ctx, infos, mutators)
 
     if ctx.tier == "thorough":
@@ -1360,7 +1432,24 @@ MUTANTS = [
     _m("argsort-ids-descending", "np.argsort(ids_dim)\n", "np.argsort(ids_dim)[::-1]\n", "R5"),
     _m("sort-tuple-swapped", "return (subdomains[inds[0]], subdomains[inds[1]])",
        "return (subdomains[inds[1]], subdomains[inds[0]])", "R5"),
-    # validation order
+    # validation order (reverted fixes 0b020dfbc, 62fc2be25)
+    dict(name="revert-fix-add-interface-validate-first", rule="R6", control=True, edits=[
+        dict(file=MD, count=1,
+             old="        if np.abs(sd_pair[0].dim - sd_pair[1].dim) < 3:\n            sd_pair = self.sort_subdomain_tuple(sd_pair)\n"
+                 "        else:\n            raise ValueError(\"Can only handle subdomain coupling of co-dimension <= 2\")\n",
+             new=""),
+        dict(file=MD, count=1,
+             old="        self._interface_data[intf] = data\n",
+             new="        self._interface_data[intf] = data\n"
+                 "        if np.abs(sd_pair[0].dim - sd_pair[1].dim) < 3:\n            sd_pair = self.sort_subdomain_tuple(sd_pair)\n"
+                 "        else:\n            raise ValueError(\"Can only handle subdomain coupling of co-dimension <= 2\")\n")]),
+    _m("revert-fix-add-subdomains-duplicate",
+       "        if len(set(id(sd) for sd in ng)) != len(ng):\n            raise ValueError(\"Grid listed more than once in new_subdomains\")\n",
+       "", "R7", control=True),
+    _m("add-subdomains-uniqueness-after-insert",
+       "        if len(set(id(sd) for sd in ng)) != len(ng):\n            raise ValueError(\"Grid listed more than once in new_subdomains\")\n\n        for sd in ng:\n            # Add the grid to the dictionary of subdomains with an empty data\n            # dictionary.\n            self._subdomain_data[sd] = {}\n",
+       "        for sd in ng:\n            # Add the grid to the dictionary of subdomains with an empty data\n            # dictionary.\n            self._subdomain_data[sd] = {}\n        if len(set(id(sd) for sd in ng)) != len(ng):\n            raise ValueError(\"Grid listed more than once in new_subdomains\")\n",
+       "R6"),
     _m("add-interface-validates-after-insert",
        "        if intf in self._interface_data:\n            raise ValueError(\"Cannot add existing interface\")\n",
        "        self._interface_to_subdomains[intf] = tuple(sd_pair)\n        if intf in self._interface_data:\n"
